@@ -374,6 +374,8 @@ impl ProofPool {
         }
         self.verifies_in_window += 1;
 
+        #[cfg(quantus_network_qp_zk_circuits_verif)]
+        crate::verif_hooks::notify_verify();
         self.verifier.verify(proof.clone()).map_err(|e| {
             anyhow!(
                 "refusing to queue invalid private-batch proof: verification failed: {}",
@@ -640,6 +642,64 @@ impl ProofPool {
             .fold(0u64, |acc, sum| acc.saturating_add(sum));
 
         Ok((key, nullifiers, volume))
+    }
+}
+
+/// Read-only view of the pool's private state for the simulator's oracles.
+#[cfg(quantus_network_qp_zk_circuits_verif)]
+pub struct VerifPoolDump<'a> {
+    /// Buckets in key order; entries in stored order.
+    pub buckets: Vec<VerifBucketDump<'a>>,
+    /// Nullifier index, sorted by nullifier.
+    pub index: Vec<(BytesDigest, BatchKey)>,
+    pub verify_window_started: Instant,
+    pub verifies_in_window: usize,
+}
+
+#[cfg(quantus_network_qp_zk_circuits_verif)]
+pub struct VerifBucketDump<'a> {
+    pub key: BatchKey,
+    pub last_snapshot_at: Option<Instant>,
+    pub entries: Vec<VerifEntryDump<'a>>,
+}
+
+#[cfg(quantus_network_qp_zk_circuits_verif)]
+pub struct VerifEntryDump<'a> {
+    pub proof: &'a Proof,
+    pub nullifiers: &'a [BytesDigest],
+    pub volume: u64,
+    pub admitted_at: Instant,
+}
+
+#[cfg(quantus_network_qp_zk_circuits_verif)]
+impl ProofPool {
+    pub fn verif_dump(&self) -> VerifPoolDump<'_> {
+        let mut index: Vec<(BytesDigest, BatchKey)> =
+            self.nullifier_index.iter().map(|(n, k)| (*n, *k)).collect();
+        index.sort();
+        VerifPoolDump {
+            buckets: self
+                .buckets
+                .iter()
+                .map(|(key, bucket)| VerifBucketDump {
+                    key: *key,
+                    last_snapshot_at: bucket.last_snapshot_at,
+                    entries: bucket
+                        .proofs
+                        .iter()
+                        .map(|q| VerifEntryDump {
+                            proof: &q.proof,
+                            nullifiers: &q.nullifiers,
+                            volume: q.volume,
+                            admitted_at: q.admitted_at,
+                        })
+                        .collect(),
+                })
+                .collect(),
+            index,
+            verify_window_started: self.verify_window_started,
+            verifies_in_window: self.verifies_in_window,
+        }
     }
 }
 
